@@ -136,7 +136,7 @@ def run(c, facts, tier):
             "an unquoted word stops at %s; blanks/parenthesis it does NOT stop at: %s" % (peg.cs_show(term), peg.cs_show(missing)),
             witness=wit,
         )
-    c.floor("separator sites", nsep, 40)
+    c.floor("separator sites", nsep, 20)
     c.floor("unquoted-word parsers", len(words), 1)
 
     # ------------------------------------------------------------ C06.synonyms
